@@ -156,7 +156,7 @@ func zzLayout(splits [][]byte) *zzPD {
 
 // zzOracle issues strictly increasing timestamps; the physical clock used for
 // expiry is the logical counter itself (ttl arithmetic is not the subject here).
-type zzOracle struct {
+type zzOracleCore struct {
 	oracle.Oracle
 	sched   *zzSched
 	mu      sync.Mutex
@@ -178,10 +178,24 @@ type zzFuture struct {
 
 func (f zzFuture) Wait() (uint64, error) { return f.ts, f.err }
 
+// zzOracle is one client's handle on the shared oracle.
+type zzOracle struct {
+	*zzOracleCore
+	id int
+}
+
 func (o *zzOracle) GetTimestamp(ctx context.Context, op *oracle.Option) (uint64, error) {
 	if o.sched != nil {
-		o.sched.point(-1, "tso")
+		o.sched.point(o.id, "tso")
 	}
+	return o.zzOracleCore.GetTimestamp(ctx, op)
+}
+func (o *zzOracle) GetTimestampAsync(ctx context.Context, op *oracle.Option) oracle.Future {
+	ts, err := o.GetTimestamp(ctx, op)
+	return zzFuture{ts, err}
+}
+
+func (o *zzOracleCore) GetTimestamp(ctx context.Context, op *oracle.Option) (uint64, error) {
 	o.mu.Lock()
 	defer o.mu.Unlock()
 	if o.fail {
@@ -196,29 +210,29 @@ func (o *zzOracle) GetTimestamp(ctx context.Context, op *oracle.Option) (uint64,
 	o.issued = append(o.issued, o.last)
 	return o.last, nil
 }
-func (o *zzOracle) GetTimestampAsync(ctx context.Context, op *oracle.Option) oracle.Future {
+func (o *zzOracleCore) GetTimestampAsync(ctx context.Context, op *oracle.Option) oracle.Future {
 	ts, err := o.GetTimestamp(ctx, op)
 	return zzFuture{ts, err}
 }
-func (o *zzOracle) GetLowResolutionTimestamp(ctx context.Context, op *oracle.Option) (uint64, error) {
+func (o *zzOracleCore) GetLowResolutionTimestamp(ctx context.Context, op *oracle.Option) (uint64, error) {
 	return o.last, nil
 }
-func (o *zzOracle) GetLowResolutionTimestampAsync(ctx context.Context, op *oracle.Option) oracle.Future {
+func (o *zzOracleCore) GetLowResolutionTimestampAsync(ctx context.Context, op *oracle.Option) oracle.Future {
 	return zzFuture{o.last, nil}
 }
-func (o *zzOracle) IsExpired(lockTS, ttl uint64, op *oracle.Option) bool { return o.expired }
-func (o *zzOracle) UntilExpired(lockTS, ttl uint64, op *oracle.Option) int64 {
+func (o *zzOracleCore) IsExpired(lockTS, ttl uint64, op *oracle.Option) bool { return o.expired }
+func (o *zzOracleCore) UntilExpired(lockTS, ttl uint64, op *oracle.Option) int64 {
 	if o.expired {
 		return 0
 	}
 	return 1000
 }
-func (o *zzOracle) Close() {}
-func (o *zzOracle) ValidateReadTS(ctx context.Context, readTS uint64, isStaleRead bool, op *oracle.Option) error {
+func (o *zzOracleCore) Close() {}
+func (o *zzOracleCore) ValidateReadTS(ctx context.Context, readTS uint64, isStaleRead bool, op *oracle.Option) error {
 	return nil
 }
-func (o *zzOracle) GetExternalTimestamp(ctx context.Context) (uint64, error) { return 0, nil }
-func (o *zzOracle) SetLowResolutionTimestampUpdateInterval(time.Duration) error {
+func (o *zzOracleCore) GetExternalTimestamp(ctx context.Context) (uint64, error) { return 0, nil }
+func (o *zzOracleCore) SetLowResolutionTimestampUpdateInterval(time.Duration) error {
 	return nil
 }
 
@@ -471,6 +485,10 @@ func (c *zzCluster) prewrite(r *kvrpcpb.PrewriteRequest) *kvrpcpb.PrewriteRespon
 			continue
 		}
 		if m.Op == kvrpcpb.Op_CheckNotExists {
+			// an existence check is a read at the start ts: it pushes max_ts like a get (TiKV does)
+			if start > c.maxReadTS {
+				c.maxReadTS = start
+			}
 			continue
 		}
 		ks.lock = &zzLock{startTS: start, primary: r.PrimaryLock, op: m.Op, value: m.Value, minCommitTS: minCommit, ttl: r.LockTtl,
@@ -589,6 +607,9 @@ func (c *zzCluster) pessimisticLock(r *kvrpcpb.PessimisticLockRequest) *kvrpcpb.
 		keyErr = &kvrpcpb.KeyError{AlreadyExist: &kvrpcpb.AlreadyExist{Key: k0}}
 	case zzLockDeadlock:
 		keyErr = &kvrpcpb.KeyError{Deadlock: &kvrpcpb.Deadlock{LockTs: r.StartVersion + 1, LockKey: k0, DeadlockKeyHash: 12345}}
+	}
+	if c.faithful && r.ForUpdateTs > c.maxReadTS {
+		c.maxReadTS = r.ForUpdateTs // a pessimistic lock request reads as of its for-update ts
 	}
 	if c.faithful && keyErr == nil {
 		for _, m := range r.Mutations {
@@ -1271,7 +1292,7 @@ func zzNewStoreTS(splits [][]byte, faults int, symbolicTS bool) (*zzStore, *zzCl
 	s.pd = pdc
 	s.cache = locate.NewRegionCache(pdc)
 	s.cli = &zzClient{cl: cl}
-	s.orc = &zzOracle{last: 1000, step: 10}
+	s.orc = &zzOracle{zzOracleCore: &zzOracleCore{last: 1000, step: 10}}
 	if symbolicTS {
 		t0 := zzU64("ts.0")
 		zzAssume(t0 >= 1<<20 && t0 < 1<<60)
@@ -1287,9 +1308,9 @@ func zzNewStoreTS(splits [][]byte, faults int, symbolicTS bool) (*zzStore, *zzCl
 // zzNewPeer: another client process of the same cluster: own region cache, own lock resolver, own
 // connection (never faulted, not affected by a crash of the first client); the oracle is shared.
 func zzNewPeer(s *zzStore) *zzStore {
-	p := &zzStore{ctx: context.Background(), pd: s.pd, orc: s.orc}
-	p.cache = locate.NewRegionCache(s.pd)
 	s.cli.cl.peers++
+	p := &zzStore{ctx: context.Background(), pd: s.pd, orc: &zzOracle{zzOracleCore: s.orc.zzOracleCore, id: s.cli.cl.peers}}
+	p.cache = locate.NewRegionCache(s.pd)
 	p.cli = &zzClient{cl: s.cli.cl, peer: true, id: s.cli.cl.peers}
 	p.resolver = txnlock.NewLockResolver(p)
 	return p
@@ -1327,6 +1348,12 @@ type zzTicket struct {
 type zzSched struct {
 	pending []*zzTicket
 	steps   int // number of tickets granted so far (the harness' real-time axis)
+	// preemption bounding: taking the turn away from the goroutine group (client) that moved last
+	// while it could move on counts as a preemption; at most maxPreempt per schedule (< 0: unbounded).
+	// Switches at points where the last mover is blocked or finished are free.
+	maxPreempt int
+	preempts   int
+	last       int
 }
 
 func (g *zzSched) point(client int, what string) {
@@ -1357,8 +1384,35 @@ func (g *zzSched) run(done func() bool, maxSteps int) bool {
 		if g.steps >= maxSteps {
 			return false
 		}
-		k := zzChoice("sched", len(g.pending))
-		t := g.pending[k]
+		cand := g.pending
+		if g.maxPreempt >= 0 && g.preempts >= g.maxPreempt {
+			// no preemption left: the last mover goes on if it can
+			var same []*zzTicket
+			for _, t := range g.pending {
+				if t.client == g.last {
+					same = append(same, t)
+				}
+			}
+			if len(same) > 0 {
+				cand = same
+			}
+		}
+		t := cand[zzChoice("sched", len(cand))]
+		if g.steps > 0 && t.client != g.last {
+			for _, o := range g.pending {
+				if o.client == g.last {
+					g.preempts++
+					break
+				}
+			}
+		}
+		g.last = t.client
+		k := 0
+		for i, o := range g.pending {
+			if o == t {
+				k = i
+			}
+		}
 		g.pending = append(g.pending[:k:k], g.pending[k+1:]...)
 		g.steps++
 		t.ch <- struct{}{}
